@@ -44,13 +44,15 @@ SpareNames == {"e1", "e2", "e3", "e4", "e5", "e6", "e7", "e8"}   \* only for pat
 ItemBase  == 1000
 \* the fixed library module m2 (text in the harness, ids here)
 LibValues == [a |-> 2001, c |-> 2002, A |-> 2003, C |-> 2004, k |-> 2005]   \* public values
+LibTypeT  == 2006                       \* m2 also declares `pub type T { W }`: same spelling as m1's own type
 LibPrivate == {"p"}
 LibModule == 2000                       \* the module itself (target of an accessor)
 ImportForms == {"none", "plain", "alias", "unq", "unqalias"}
-\* m1 may declare one record type  `type T { T ( a : Int , b : Int ) }`: the type T and the constructor T
-\* share a spelling but live in different namespaces; the fields are spelled like the value names.  (One variant
-\* only: Gleam allows `.a` just for fields common to all variants.)
-\* ids: type = ItemBase + i, constructor T = +100, field a = +300, field b = +400
+\* m1 may declare one record type  `type T { T ( a : Int , b : Int ) V ( a : Int , b : Int ) }`: the type T and the
+\* constructor T share a spelling but live in different namespaces; the fields are spelled like the value names and
+\* are common to both variants (Gleam allows `.a` only for such fields): a common field is ONE declaration, declared
+\* by the first variant; the second variant's field names refer to it.
+\* ids: type = ItemBase + i, constructor T = +100, constructor V = +200, field a = +300, field b = +400
 CtorT == 100  CtorU == 200  FieldA == 300  FieldB == 400
 
 VARIABLES todo, out, frames, pending, budget, imp, items, phase
@@ -89,13 +91,13 @@ TypeItem == LET idx == {i \in 1..Len(items) : items[i].k = "type"} IN IF idx = {
 HasType  == TypeItem # 0
 TypeBase == ItemBase + TypeItem
 \* constructors are values of the module scope; the type itself is in the type namespace only
-CtorId(name) == IF ~HasType THEN 0 ELSE IF name = "T" THEN TypeBase + CtorT ELSE 0
+CtorId(name) == IF ~HasType THEN 0 ELSE IF name = "T" THEN TypeBase + CtorT ELSE IF name = "V" THEN TypeBase + CtorU ELSE 0
 ModuleValue(name) == IF ItemId(name) # 0 THEN ItemId(name) ELSE IF CtorId(name) # 0 THEN CtorId(name) ELSE Imported(name)
 
 Resolve(name) == IF Local(name) # 0 THEN Local(name) ELSE ModuleValue(name)
 
 RefNames == Names \cup (IF imp = "unq" THEN {"c"} ELSE IF imp = "unqalias" THEN {"d", "c"} ELSE {"c"})
-Visible  == {n \in Names \cup SpareNames \cup {"c", "d", "T"} : Resolve(n) # 0}
+Visible  == {n \in Names \cup SpareNames \cup {"c", "d", "T", "V"} : Resolve(n) # 0}
 Accessor == IF imp = "plain" THEN "m2" ELSE IF imp = "alias" THEN "q" ELSE ""
 
 \* pop frames down to and including the innermost mark
@@ -136,6 +138,8 @@ Prods(h) ==
            \* the module's own record type (only when it is declared)
            P(1, "own_ctor_labelled", <<NT("NEEDTYPE"), OPEN("EXPR_CALL"), Sym("OWNCTOR", "T", 0), T("("), Sym("LABEL", "b", 0), T(":"), NT("EXPR"), T(","),
                                       Sym("LABEL", "a", 0), T(":"), NT("EXPR"), T(")"), CLOSE>>),
+           P(1, "own_ctor2_labelled", <<NT("NEEDTYPE"), OPEN("EXPR_CALL"), Sym("OWNCTOR", "V", 0), T("("), Sym("LABEL", "a", 0), T(":"), NT("EXPR"), T(","),
+                                       Sym("LABEL", "b", 0), T(":"), NT("EXPR"), T(")"), CLOSE>>),
            P(1, "own_field", <<NT("NEEDTYPE"), OPEN("FIELD_ACCESS"), OPEN("EXPR_CALL"), Sym("OWNCTOR", "T", 0), T("("), T("1"), T(","), NT("EXPR"), T(")"), CLOSE,
                                T("."), Sym("FIELDREF", "a", 0), CLOSE>>) }
     [] h.s = "EXPR0" ->            \* operand position: atoms only
@@ -163,6 +167,7 @@ Prods(h) ==
            P(1, "pctor", <<NT("PCTOR"), T("("), NT("PAT"), T(")")>>),
            P(1, "pconcat", <<T("\"s\""), T("<>"), NT("BINDER")>>),
            P(1, "p_own_ctor", <<NT("NEEDTYPE"), Sym("OWNCTOR", "T", 1), T("("), Sym("LABEL", "a", 1), T(":"), NT("PAT"), T(","), T(".."), T(")")>>),
+           P(1, "p_own_ctor2", <<NT("NEEDTYPE"), Sym("OWNCTOR", "V", 1), T("("), Sym("LABEL", "b", 1), T(":"), NT("PAT"), T(","), T(".."), T(")")>>),
            P(1, "p_own_ctor_pos", <<NT("NEEDTYPE"), Sym("OWNCTOR", "T", 1), T("("), NT("PAT"), T(","), NT("PAT"), T(")")>>) }
     [] OTHER -> {}
 
@@ -177,9 +182,11 @@ Init == /\ todo = <<>> /\ out = <<>> /\ frames = <<>> /\ pending = <<>> /\ budge
 Pick(S) == IF Sim /\ S # {} THEN {RandomElement(S)} ELSE S
 
 \* module header: choose the import form and the top-level items (kinds and distinct names) up front
-ItemLists == UNION {[1..k -> [k : {"fn", "const"}, n : Names] \cup {[k |-> "type", n |-> "T"]}] : k \in 1..MaxItems}
+ItemLists == UNION {[1..k -> [k : {"fn", "const"}, n : Names] \cup {[k |-> "type", n |-> "T"], [k |-> "alias", n |-> "B"]}] : k \in 1..MaxItems}
 DistinctNames(l) == /\ \A i, j \in 1..Len(l) : i # j => l[i].n # l[j].n
                     /\ "type" \notin Masked \/ \A i \in 1..Len(l) : l[i].k # "type"
+                    \* an alias `type B = T` needs the type, and comes last (its `T` is then the last token of the file)
+                    /\ \A i \in 1..Len(l) : l[i].k = "alias" => (i = Len(l) /\ \E j \in 1..Len(l) : l[j].k = "type")
 Header == /\ phase = "header"
           /\ \E f \in Pick(ImportForms \ Masked), l \in Pick({l \in ItemLists : DistinctNames(l) /\ l[1].k = "fn"}) :
                /\ imp' = f /\ items' = l
@@ -211,7 +218,11 @@ Step ==
                                NT("COMMIT"), T(")"), T("{"), NT("STMTS"), T("}"), NT("POPMARK"), CLOSE>>
                         ELSE IF h.x = "type"
                         THEN <<OPEN("ADT"), T("type"), Sym("ITEMNAME", "T", h.n), T("{"),
-                               Sym("DECL", "T", CtorT), T("("), Sym("DECL", "a", FieldA), T(":"), T("Int"), T(","), Sym("DECL", "b", FieldB), T(":"), T("Int"), T(")"), T("}"), CLOSE>>
+                               Sym("DECL", "T", CtorT), T("("), Sym("DECL", "a", FieldA), T(":"), T("Int"), T(","), Sym("DECL", "b", FieldB), T(":"), T("Int"), T(")"),
+                               Sym("DECL", "V", CtorU), T("("), Sym("FIELDALT", "a", FieldA), T(":"), T("Int"), T(","), Sym("FIELDALT", "b", FieldB), T(":"), T("Int"), T(")"),
+                               T("}"), CLOSE>>
+                        ELSE IF h.x = "alias"
+                        THEN <<OPEN("TYPE_ALIAS"), T("type"), Sym("ITEMNAME", "B", h.n), T("="), Sym("OWNTYPEREF", "", 0), CLOSE>>
                         ELSE <<OPEN("MODULE_CONSTANT"), T("const"), Sym("ITEMNAME", items[h.n].n, h.n), T("="), T("1"), CLOSE>>) \o Rest
             /\ UNCHANGED <<out, frames, pending, budget>>
        [] h.s = "ITEMNAME" ->
@@ -224,7 +235,14 @@ Step ==
        \* symbols of the module's own record type
        [] h.s = "NEEDTYPE" -> /\ HasType /\ todo' = Rest /\ UNCHANGED <<out, frames, pending, budget>>
        [] h.s = "DECL" -> /\ Emit(Tok(h.x, "def", TypeBase + h.n, {})) /\ todo' = Rest /\ UNCHANGED <<frames, pending, budget>>
-       [] h.s = "TYPEREF" -> /\ Emit(Tok("T", "tref", TypeBase, {})) /\ todo' = Rest /\ UNCHANGED <<frames, pending, budget>>
+       [] h.s = "OWNTYPEREF" -> /\ Emit(Tok("T", "tref", TypeBase, {})) /\ todo' = Rest /\ UNCHANGED <<frames, pending, budget>>
+       [] h.s = "FIELDALT" -> /\ Emit(Tok(h.x, "fieldalt", TypeBase + h.n, {})) /\ todo' = Rest /\ UNCHANGED <<frames, pending, budget>>
+       \* a type annotation: the module's own type T, or the library's type of the same name through the accessor
+       [] h.s = "TYPEREF" ->
+            \E q \in Pick(IF Accessor # "" THEN {FALSE, TRUE} ELSE {FALSE}) :
+               /\ out' = IF q THEN out \o <<Tok(Accessor, "tmodref", LibModule, {}), Plain("."), Tok("T", "qtref", LibTypeT, {})>>
+                               ELSE Append(out, Tok("T", "tref", TypeBase, {}))
+               /\ todo' = Rest /\ UNCHANGED <<frames, pending, budget>>
        [] h.s = "OWNCTOR" -> /\ Emit(Tok(h.x, IF h.n = 0 THEN "ref" ELSE "pref", CtorId(h.x), IF h.n = 0 THEN Visible ELSE {}))
                              /\ todo' = Rest /\ UNCHANGED <<frames, pending, budget>>
        [] h.s = "LABEL" -> /\ Emit(Tok(h.x, IF h.n = 0 THEN "label" ELSE "plabel", TypeBase + (IF h.x = "a" THEN FieldA ELSE FieldB), {}))
@@ -283,12 +301,12 @@ Done == phase = "body" /\ todo = <<>>
 \* Rename (C07): the declaration ids occurring in the program and, for each, the tokens a rename must
 \* rewrite - the declaring token and every occurrence bound to it that is spelled with the declaration's own
 \* name (an occurrence through an import alias keeps its spelling).  Library declarations are declared in m2.
-DeclName(d) == IF d = LibValues.a THEN "a" ELSE IF d = LibValues.c THEN "c" ELSE IF d = LibValues.A THEN "A"
+DeclName(d) == IF d = LibTypeT THEN "T" ELSE IF d = LibValues.a THEN "a" ELSE IF d = LibValues.c THEN "c" ELSE IF d = LibValues.A THEN "A"
                ELSE IF d = LibValues.C THEN "C" ELSE IF d = LibValues.k THEN "k"
                ELSE IF d > ItemBase + FieldB THEN "b" ELSE IF d > ItemBase + FieldA THEN "a"
-               ELSE IF d > ItemBase + CtorU THEN "U" ELSE IF d > ItemBase + CtorT THEN "T"
+               ELSE IF d > ItemBase + CtorU THEN "V" ELSE IF d > ItemBase + CtorT THEN "T"
                ELSE IF d > ItemBase THEN items[d - ItemBase].n ELSE out[d].t
-RefRoles == {"def", "spreaddef", "ref", "qref", "impname", "pref", "label", "plabel", "field", "tref"}
+RefRoles == {"def", "spreaddef", "ref", "qref", "impname", "pref", "label", "plabel", "field", "fieldalt", "tref", "qtref"}
 DeclIds == {out[i].tg : i \in {j \in 1..Len(out) : out[j].r \in RefRoles /\ out[j].tg # 0}}
 RenameSet(d) == {i \in 1..Len(out) : /\ out[i].r \in RefRoles \cup {"altdef"}
                                       /\ out[i].tg = d /\ out[i].t = DeclName(d)}
